@@ -191,9 +191,11 @@ def fromAffineObj (r : Ref) (gen : Bool) : M Ref := do
 
 /-! ### `-P`, `double`, `+` -/
 
+/-- `-P`.  `Point.__neg__` (fix F12): `if self == INFINITY: return INFINITY` — the singleton, also for a copy of it
+(`Point.__eq__` compares fields) -/
 def negObj (r : Ref) : M Ref := do
   match ← getPt r with
-  | .infinity => raise .attributeError
+  | .infinity => M.pure .inf
   | .jac P => alloc (.pj ⟨pjNeg P, []⟩)
   | .aff A => do let N ← lift (affNeg A); alloc (.aff N)
 
@@ -418,7 +420,7 @@ def mkKeyObj (g r : Ref) : M Ref := do
   let q ← (match ← getPt r with
     | .jac _ => (M.pure r : M Ref)
     | .aff _ => fromAffineObj r false
-    | .infinity => raise .other)
+    | .infinity => raise .malformedPoint)      -- fix F14: `if point == INFINITY: raise MalformedPointError`
   let some x ← readX q | raise .other
   let some y ← readY q | raise .other
   let .jac G ← getPt g | raise .other
